@@ -110,6 +110,23 @@ static const char *check_slot(spif_mbuff_t m, const char *nm) {
     }
     return NULL;
 }
+/* Slack poisoning: the bytes between len and size have no defined content, so overwriting them is invisible to a correct
+ * implementation.  After EVERY step they are filled with adversarial content - on even steps the model alphabet cyclically,
+ * on odd steps a rotated copy of the live bytes themselves - with a phase that depends on the step number, so that a needle
+ * whose first bytes are the last live bytes can be completed from the slack and every byte searched by index / rindex / cmp
+ * exists there.  Any read beyond len then shows as a wrong value even where ASan is blind (same heap block).
+ * Called only after check_slot() has established len <= size <= allocation. */
+static void poison_slack(spif_mbuff_t m, int step) {
+    static const unsigned char alpha[] = { 0, 32, 97, 233, 233, 0, 97, 32, 32, 233 };
+    long i, len, size;
+    if (!m || !m->buff) return;
+    len = (long) m->len; size = (long) m->size;
+    for (i = len; i < size; i++) {
+        long k = i - len + step / 2;
+        if ((step & 1) && len > 0) m->buff[i] = m->buff[k % len];
+        else m->buff[i] = alpha[k % (long) sizeof(alpha)];
+    }
+}
 static void put_slot(vh_sb *out, spif_mbuff_t m) {
     if (!m) { sb_puts(out, "{live=F,s=[]}"); return; }
     sb_puts(out, "{live=T,s=");
@@ -404,6 +421,8 @@ static const char *vh_step(const vh_step_t *st, vh_sb *ret, vh_sb *state) {
 
     if ((inv = check_slot(S[0], "a"))) return inv;
     if ((inv = check_slot(S[1], "b"))) return inv;
+    poison_slack(S[0], vh_cur_step);
+    poison_slack(S[1], vh_cur_step + 1);
     sb_puts(state, "{a="); put_slot(state, S[0]);
     sb_puts(state, ",b="); put_slot(state, S[1]);
     sb_putc(state, '}');
